@@ -103,4 +103,55 @@ MUTANTS = [
         "what": "temporary file renamed into place before it is flushed and closed",
         "edits": [('        pickle.dump(data, fp)\n    tmp.replace(file)', '        pickle.dump(data, fp)\n        tmp.replace(file)')],
     },
+    # ------------------------------------------------------------------ C04
+    {"id": "M40", "property": "C04", "file": "simulator.py", "what": "time shift subtracted instead of added to the reported axis",
+     "edits": [("                    time += self._time_shift", "                    time -= self._time_shift")]},
+    {"id": "M41", "property": "C04", "file": "simulator.py", "what": "continuation frames keep their first (already reported) row",
+     "edits": [("                    self.variables.append(results_df.iloc[1:, :])", "                    self.variables.append(results_df)")]},
+    {"id": "M42", "property": "C04", "file": "integrators/int_scipy.py", "what": "integrator does not advance t0/y0 after a segment",
+     "edits": [("            self.t0 = t[-1]\n            self.y0 = y[-1]\n", "")]},
+    {"id": "M43", "property": "C04", "file": "simulator.py", "what": "simulate accepts an end equal to the time reached",
+     "edits": [("        if t_end <= prior_t_end:", "        if t_end < prior_t_end:")]},
+    {"id": "M44", "property": "C04", "file": "simulator.py", "what": "override applied to the initial instead of the last state",
+     "edits": [("            self.y0 = sim_variables[-1].iloc[-1, :].to_dict() | variables", "            self.y0 = self.y0 | variables")]},
+    {"id": "M45", "property": "C04", "file": "simulator.py", "what": "revert fix: legality check in relative time after override",
+     "edits": [("        if t_end <= prior_t_end:", "        if t_end - (self._time_shift or 0.0) <= prior_t_end:")]},
+    {"id": "M46", "property": "C04", "file": "simulator.py", "what": "overlap removal drops the point equal to... keeps points before the time reached",
+     "edits": [("        if not (larger := time_points >= prior_t_end).all():", "        if not (larger := time_points >= 0).all():")]},
+    {"id": "M47", "property": "C04", "file": "integrators/int_scipy.py", "what": "revert fix: steady-state search restarts from the original state",
+     "edits": [("        integ.set_initial_value(self.y0, self.t0)", "        self.reset()\n        integ.set_initial_value(self.y0, self.t0)")]},
+    {"id": "M48", "property": "C04", "file": "simulator.py", "what": "revert fix: second override rebuilds from the last simulated row",
+     "edits": [("        if self._time_shift == time_reached:", "        if False:")]},
+    {"id": "M49", "property": "C04", "file": "simulator.py", "what": "revert fix: model integrated in relative time after override",
+     "edits": [("            rhs = partial(_call_at_shifted_time, self.model, shift)", "            rhs = self.model")]},
+    {"id": "M50", "property": "C04", "file": "simulator.py", "what": "clear_results forgets to drop the time shift",
+     "edits": [("        self.simulation_parameters = None\n        self._time_shift = None\n        self._errors = []", "        self.simulation_parameters = None\n        self._errors = []")]},
+    # ------------------------------------------------------------------ C14
+    {"id": "M51", "property": "C14", "file": "simulator.py", "what": "protocol time course does not advance t_start between steps",
+     "edits": [("            t_start = t_end\n", "")]},
+    {"id": "M52", "property": "C14", "file": "simulator.py", "what": "step interval closed on the left, open on the right",
+     "edits": [("(full_time_points > t_start) & (full_time_points <= t_end)", "(full_time_points >= t_start) & (full_time_points < t_end)")]},
+    {"id": "M53", "property": "C14", "file": "simulator.py", "what": "protocol on a continued simulator forgets the start time",
+     "edits": [("            self.simulate(t_start + t_end.total_seconds(), steps=time_points_per_step)", "            self.simulate(t_end.total_seconds(), steps=time_points_per_step)")]},
+    {"id": "M54", "property": "C14", "file": "__init__.py", "what": "make_protocol does not accumulate durations",
+     "edits": [("        t0 += pd.Timedelta(seconds=step)", "        t0 = pd.Timedelta(seconds=step)")]},
+    {"id": "M55", "property": "C14", "file": "simulator.py", "what": "protocol step parameters applied after the step is simulated",
+     "edits": [("            self.model.update_parameters(pars.dropna().to_dict())\n            self.simulate(t_start + t_end.total_seconds(), steps=time_points_per_step)", "            self.simulate(t_start + t_end.total_seconds(), steps=time_points_per_step)\n            self.model.update_parameters(pars.dropna().to_dict())")]},
+    {"id": "M56", "property": "C14", "file": "simulator.py", "what": "revert fix: ragged protocol steps write NaN",
+     "edits": [("pars.dropna().to_dict()", "pars.to_dict()")], "all": True},
+    {"id": "M57", "property": "C14", "file": "simulator.py", "what": "relative time points not shifted by the start time",
+     "edits": [("        if time_points_as_relative:\n            time_points += t_start", "        if time_points_as_relative:\n            time_points += 0.0")]},
+    # ------------------------------------------------------------------ C15
+    {"id": "M60", "property": "C15", "file": "integrators/int_scipy.py", "what": "convergence test inverted",
+     "edits": [("            if np.linalg.norm(diff, ord=2) < tolerance:", "            if np.linalg.norm(diff, ord=2) > tolerance:")]},
+    {"id": "M61", "property": "C15", "file": "simulator.py", "what": "get_result ignores recorded errors",
+     "edits": [("        if len(self._errors) > 0:\n            # FIXME", "        if False:\n            # FIXME")]},
+    {"id": "M62", "property": "C15", "file": "integrators/int_scipy.py", "what": "revert fix: previous state aliased with the solver's buffer",
+     "edits": [("            y2 = np.array(integ.integrate(t), dtype=float)", "            y2 = integ.integrate(t)")]},
+    {"id": "M63", "property": "C15", "file": "integrators/int_scipy.py", "what": "revert fix: failed steps are not checked",
+     "edits": [("            if not integ.successful():\n                return Result(IntegrationFailure())\n", "")]},
+    {"id": "M64", "property": "C15", "file": "integrators/int_scipy.py", "what": "budget exhaustion returns the last state as if steady",
+     "edits": [("        return Result(NoSteadyState())", "        return Result(TimeCourse(time=np.array([t], dtype=float), values=np.array([y1], dtype=float)))")]},
+    {"id": "M65", "property": "C15", "file": "scan.py", "what": "steady-state scan worker falls back to the last state instead of NaN",
+     "edits": [("    return res.default(\n        lambda: Simulation.default(model=model, time_points=np.array([0.0]))\n    )", "    return res.default(\n        lambda: Simulation(model=model, raw_variables=[pd.DataFrame([model.get_initial_conditions()], index=[0.0])], raw_parameters=[model.get_parameter_values()])\n    )")]},
 ]
